@@ -224,9 +224,9 @@ def run(ctx):
             return None
 
         def one_def(e):
-            if isinstance(e, ast.Name) and len(defs.get(e.id, [])) == 1:
-                return defs[e.id][0]
-            return None
+            if isinstance(e, ast.Name):
+                return defs[e.id][0] if len(defs.get(e.id, [])) == 1 else None
+            return e            # an expression written in place is its own definition
 
         n_first = n_stag = 0
         flagged_names = []
@@ -439,10 +439,14 @@ def run(ctx):
         ctx.fail("R6", rc, f, "rcis_batch", "AO-basis guess branch", "AO-basis guess branch not found")
     else:
         blk = ao_if[0]
-        body_txt = [norm(s).replace(" ", "") for s in blk.body]
+        # the AO arm is the one that transforms the guess with the MO coefficients (either arm of the test, depending on how the test is written)
+        arm = blk.body
+        if not any("einsum" in norm(s) and "init_amplitude_guess" in norm(s) for s in blk.body) and any("einsum" in norm(s) and "init_amplitude_guess" in norm(s) for s in blk.orelse):
+            arm = blk.orelse
+        body_txt = [norm(s).replace(" ", "") for s in arm]
         has_norm = any(t.startswith("V[:,0]/=torch.linalg.vector_norm(V[:,0]") for t in body_txt)
         has_orth = any("orthogonalize_to_current_subspace" in t for t in body_txt)
-        has_raise = any(isinstance(x, ast.Raise) for s in blk.body for x in ast.walk(s))
+        has_raise = any(isinstance(x, ast.Raise) for s in arm for x in ast.walk(s))
         ctx.check(has_norm and has_orth and has_raise, "R6", rc, blk, "rcis_batch", "AO-basis guess orthonormalisation",
                   "AO-basis guesses are normalised, Gram-Schmidt orthogonalised and a lost root raises",
                   f"AO-basis starting vectors enter the subspace without orthonormalisation (normalise={has_norm}, orthogonalise={has_orth}, raise on loss={has_raise}): "
